@@ -78,6 +78,18 @@ class C19(vlib.Check):
                         yield 'buf %s 4 new,1,%s;new,0,%s;clear,1;del,1 failat=%d@1' % (ty, ua, ua, k)
                         yield 'buf %s 4 new,1,%s;copy,0,1;clear,1;del,1 failat=%d@1' % (ty, ua, k)
                         yield 'buf %s 4 new,1,%s;fill,0,%d,65;clear,1;del,1 failat=%d@1' % (ty, ua, a, k)
+        # --- element counts no allocator grants (2^62 and more, incl. counts whose byte size wraps around): the request
+        #     must fail with bad_alloc and leave the buffer as it was, never be mistaken for a short one
+        for ty, L in lim.items():
+            width = {'c': 1, 'w': 4, 'u16': 2, 'u32': 4}[ty]
+            base = (2 ** 64) // width if width > 1 else 2 ** 62
+            for cnt in (base, base + 1, base + 3, 2 ** 62 + 5, 2 ** 63 + (7 if width > 1 else -9)):
+                for first in (3, 3 * L):
+                    ua = rand_units(rng, ty, first)
+                    tail = 'write,0,0,88;alloc,0,%d,66;del,0' % (L + 2)
+                    yield 'buf %s 4 new,0,%s;alloc,0,%d,67;%s failat=0@1' % (ty, ua, cnt, tail)
+                    yield 'buf %s 4 new,0,%s;allocfill,0,%d,67;%s failat=0@1' % (ty, ua, cnt, tail)
+                    yield 'buf %s 4 new,1,%s;fill,0,%d,65;clear,1;del,1 failat=0@1' % (ty, ua, cnt)
         # --- strings: a C04-style prefix, one faulted allocating operation, then use of everything
         n = 300 if tier == 'quick' else 60000
         for _ in range(n):
